@@ -2,7 +2,15 @@
 
 op   nilsimsa.seq <target> | <piece> | <piece> …      pieces are byte strings (may be empty)
 run_impl feeds the pieces to ONE object and finishes with digest(); check_impl compares with an independent positional
-reference of nilsimsa 0.2.4 on the concatenation (tools/props/parts/lsh_ref.py)."""
+reference of nilsimsa 0.2.4 on the concatenation (tools/props/parts/lsh_ref.py).
+
+op   nilsimsa.seqs <t0>,<t1>,… | <k> new | <k> u <hex> | <k> d | <k> r | <k> c <hex> | …
+SEVERAL objects (object k = Nilsimsa(t_k)), each REUSED for several messages: u = update(piece), d = digest() (which the API
+defines to leave the object ready for the next message), r = reset(), c = __call__(data).  Printed per step: `-` (new, r),
+n<count> (u), the digest (d, c).  check_impl: every digest is the reference digest of the bytes fed to THAT object since its
+last new / d / r / c, the byte counter after a piece is their number.  In the Lean model the objects are values in a list
+(Model.Multi) and digest() returns the initial state (Model.Nilsimsa.digestObj): siblings cannot interfere and nothing
+survives a digest there by construction; the lines test whether the Python objects behave so."""
 from props.common import *
 from props.parts import lsh_ref
 
@@ -10,6 +18,11 @@ PREFIX = ('nilsimsa.seq',)
 ID = 'C14'
 LEAN_PROOFS = ['Proofs.C14_Nilsimsa']
 GEN_ITEMS = ['Lsh']
+RULE = ('`nilsimsa.seq`: every single and double byte cut of short inputs, bytewise feeding, empty pieces, sampled cuts of long inputs; '
+        '`nilsimsa.seqs <targets> | <k> new|u|d|r|c`: ONE object reused for several messages in a row (digest() between them, reset() after an '
+        'abandoned stream, __call__ in between), every byte cut of the second message after first messages of 0..5 and 40 bytes, bytewise '
+        'on a reused object, two and three objects (same / different target) interleaved; every digest compared with the reference digest '
+        'of the bytes fed to that object since its last new / digest / reset / call')
 TRUSTED = ['Nilsimsa part: the scan loop of maketran is modelled with a fuel bound (256*257 iterations) that the real loop '
            'never reached for any target 0..255 (C19 correspondence stream, op nilsimsa.tran)']
 ASSUMPTIONS = ['Nilsimsa part: inputs are bytes objects (str input, `map(ord,…)`, is a Python-2 leftover and not modelled)']
@@ -21,8 +34,54 @@ def pieces_of(line):
     return int(t[1]), [unhx(x) for x in t[3:] if x != '|']
 
 
+def parse_multi(line):
+    t = line.split()
+    assert t[0] == 'nilsimsa.seqs' and t[2] == '|'
+    steps, cur = [], []
+    for x in t[3:] + ['|']:
+        if x == '|': steps.append((int(cur[0]), cur[1:])); cur = []
+        else: cur.append(x)
+    return [int(x) for x in t[1].split(',')], steps
+
+
+def run_multi(line):
+    from crysp.nilsimsa import Nilsimsa
+    targets, steps = parse_multi(line)
+    objs, out = {}, []
+    for k, st in steps:
+        if st[0] == 'new':
+            objs[k] = Nilsimsa(targets[k]); out.append('-'); continue
+        h = objs[k]
+        def upd():
+            h.update(unhx(st[1])); return 'n%d' % h.count
+        def rst():
+            h.reset(); return '-'
+        out.append(guarded({'u': upd, 'd': lambda: hx(h.digest()), 'r': rst, 'c': lambda: hx(h(unhx(st[1])))}[st[0]]))
+    return ';'.join(out)
+
+
+def check_multi(line, res):
+    targets, steps = parse_multi(line)
+    outs = res.split(';')
+    if len(outs) != len(steps): return 'nilsimsa.seqs: %d results for %d steps' % (len(outs), len(steps))
+    fed, hist = {}, {}
+    for (k, st), o in zip(steps, outs):
+        hist.setdefault(k, []).append(st[0] + ('(%d)' % len(unhx(st[1])) if len(st) > 1 else ''))
+        bad = lambda why: 'nilsimsa.seqs object %d (target %d), its steps %s; interleaved as %s: %s' % (
+            k, targets[k], ' '.join(hist[k]), ' '.join(str(j) for j, _ in steps), why)
+        if st[0] in ('new', 'r'): fed[k] = b''; exp = '-'
+        elif st[0] == 'u': fed[k] += unhx(st[1]); exp = 'n%d' % len(fed[k])
+        elif st[0] == 'd': exp = hx(lsh_ref.nilsimsa(targets[k], fed[k])); fed[k] = b''
+        else: exp = hx(lsh_ref.nilsimsa(targets[k], unhx(st[1]))); fed[k] = b''
+        if o != exp:
+            return bad('the counter after the piece is %s, %s expected' % (o, exp) if st[0] == 'u' else
+                       'the digest differs from the one-shot reference digest %s of the bytes fed to this object since its last new/digest/reset/call' % exp if st[0] in 'dc' else 'refused')
+    return None
+
+
 def run_impl(line):
     from crysp.nilsimsa import Nilsimsa
+    if line.startswith('nilsimsa.seqs '): return run_multi(line)
     target, ps = pieces_of(line)
     def go():
         h = Nilsimsa(target)
@@ -32,9 +91,74 @@ def run_impl(line):
 
 
 def check_impl(line, res):
+    if line.startswith('nilsimsa.seqs '): return check_multi(line, res)
     target, ps = pieces_of(line)
     exp = hx(lsh_ref.nilsimsa(target, b''.join(ps)))
     return None if res == exp else 'nilsimsa.seq: piecewise digest differs from the one-shot reference digest of the concatenation (%s)' % exp
+
+
+def mm(targets, steps): return 'nilsimsa.seqs %s | %s' % (','.join(str(t) for t in targets), ' | '.join('%d %s' % ks for ks in steps))
+
+
+def cuts_of(rng, d, k):
+    cuts = sorted(rng.randrange(0, len(d) + 1) for _ in range(k))
+    return [d[a:b] for a, b in zip([0] + cuts, cuts + [len(d)])]
+
+
+def weave(rng, lists):
+    pos = [0] * len(lists); out = []
+    while True:
+        live = [k for k, l in enumerate(lists) if pos[k] < len(l)]
+        if not live: return out
+        k = rng.choice(live); out.append((k, lists[k][pos[k]])); pos[k] += 1
+
+
+def reuse_cases(tier, rng):
+    """one object for several messages in a row; every byte cut of a message hashed on an object that already produced a
+    digest; reset() and __call__ between streams; sibling objects between two pieces"""
+    quick = tier == 'quick'
+    rb = lambda n: bytes(rng.getrandbits(8) for _ in range(n))
+    U = lambda p: 'u ' + hx(p)
+    # every byte cut of the second message, after first messages of 0..5 bytes (window empty / partly / completely filled) and a long one
+    for n1 in (0, 1, 2, 3, 4, 5, 40):
+        m1 = rb(n1)
+        for n in ((3, 5, 9) if quick else (0, 1, 2, 3, 4, 5, 6, 9, 14)):
+            d = rb(n)
+            for a in range(n + 1):
+                if quick and n1 in (1, 2, 5) and a not in (0, 1, n): continue
+                for t in (53,) if quick else (53, rng.randrange(256)):
+                    yield mm([t], [(0, 'new'), (0, U(m1)), (0, 'd'), (0, U(d[:a])), (0, U(d[a:])), (0, 'd')]), 'reuse:every cut after a digest'
+    d = rb(70); m1 = rb(33)
+    for a in range(0, 71, 7 if quick else 1):
+        yield mm([53], [(0, 'new'), (0, U(m1[:9])), (0, U(m1[9:])), (0, 'd'), (0, U(d[:a])), (0, U(d[a:])), (0, 'd')]), 'reuse:every cut after a digest'
+    # several messages in a row, finished by digest() / separated by reset() / by a call; an abandoned stream before reset / call
+    for _ in range(12 if quick else 120):
+        t = rng.choice([53, rng.randrange(256)]); steps = [(0, 'new')]
+        for _ in range(rng.randrange(2, 6)):
+            d = rb(rng.choice([rng.randrange(0, 7), rng.randrange(0, 60), rng.randrange(60, 400)]))
+            kind = rng.randrange(6)
+            if kind == 0: steps.append((0, 'c ' + hx(d)))
+            elif kind == 1: steps += [(0, U(p)) for p in cuts_of(rng, d, 1)] + [(0, 'r')]           # abandoned, reset
+            else: steps += [(0, U(p)) for p in cuts_of(rng, d, rng.randrange(0, 4))] + [(0, 'd')]
+        d = rb(rng.randrange(1, 50))
+        steps += [(0, U(p)) for p in cuts_of(rng, d, 2)] + [(0, 'd')]
+        yield mm([t], steps), 'reuse:several messages in a row'
+    # bytewise on a reused object
+    d = rb(12)
+    yield mm([53], [(0, 'new'), (0, 'c ' + hx(rb(30)))] + [(0, U(d[i:i + 1])) for i in range(12)] + [(0, 'd'), (0, U(b'')), (0, 'd')]), 'reuse:several messages in a row'
+    # siblings: same target / another target, constructed / fed / digested / called between two pieces
+    for ts in ((53, 53), (53, 7), (53, 53, 200)):
+        for _ in range(4 if quick else 40):
+            ls = []
+            for k in range(len(ts)):
+                l = ['new']
+                for _ in range(rng.randrange(1, 4)):
+                    d = rb(rng.choice([rng.randrange(0, 7), rng.randrange(0, 80)]))
+                    l += [U(p) for p in cuts_of(rng, d, rng.randrange(1, 3))] + [rng.choice(['d', 'd', 'd', 'r', 'c ' + hx(rb(5))])]
+                ls.append(l)
+            yield mm(ts, weave(rng, ls)), 'siblings:interleaved objects'
+        d = rb(20); e = rb(9)
+        yield mm(ts[:2], [(0, 'new'), (0, U(d[:8])), (1, 'new'), (1, U(e)), (0, U(d[8:])), (1, 'd'), (0, 'd')]), 'siblings:constructed and fed between two pieces'
 
 
 def mk(target, ps): return 'nilsimsa.seq %d | %s' % (target, ' | '.join(hx(p) for p in ps))
@@ -49,6 +173,7 @@ def cases(tier, rng):
             cuts = sorted(rng.randrange(0, len(d) + 1) for _ in range(k))
             ps = [d[a:b] for a, b in zip([0] + cuts, cuts + [len(d)])]
             yield mk(rng.choice([53, 53, rng.randrange(256)]), ps), 'seq.search'
+            yield rng.choice(list(reuse_cases('quick', rng))[-40:])[0], 'seq.search'
         return
     # every single cut and every pair of cuts of short inputs (the window fills during the first 4 bytes; thresholds at 3,4,5)
     top = 9 if tier == 'quick' else 14
@@ -75,9 +200,17 @@ def cases(tier, rng):
         cuts = sorted(rng.randrange(0, n + 1) for _ in range(k))
         ps = [d[a:b] for a, b in zip([0] + cuts, cuts + [n])]
         yield mk(rng.choice([53, rng.randrange(256)]), ps), 'seq.random'
+    yield from reuse_cases(tier, rng)
 
 
 def shrink(line):
+    if line.startswith('nilsimsa.seqs '):
+        targets, steps = parse_multi(line)
+        for i, (k, st) in enumerate(steps):
+            if st[0] != 'new': yield mm(targets, [(j, ' '.join(x)) for j, x in steps[:i] + steps[i + 1:]])
+            if len(st) > 1 and len(st[1]) > 3:
+                yield mm(targets, [(j, ' '.join(x if n != i else [x[0], x[1][:-2]])) for n, (j, x) in enumerate(steps)])
+        return
     target, ps = pieces_of(line)
     for i, p in enumerate(ps):
         if p:
